@@ -2016,3 +2016,96 @@ Proof.
     + rewrite (B2 _ RT_NS) by discriminate. rewrite (A2 _ RT_NS) by discriminate. apply Hnew.
     + rewrite (B2 _ RT_CNAME) by discriminate. rewrite (A2 _ RT_CNAME) by discriminate. apply Hnew.
 Qed.
+
+(* ====================================================================== *)
+(* Part 7: the IPv6 premise of hosts_roundtrip holds for every address      *)
+(* ====================================================================== *)
+
+Lemma addrc_fieldc c : addrc c -> fieldc c /\ c <> 37.
+Proof.
+  intros [H|[->| ->]].
+  - unfold hexc in H. apply orb_true_iff in H as [H|H].
+    + apply is_digit_range in H. unfold fieldc. repeat split; lia.
+    + apply andb_true_iff in H as [H1 H2]. apply N.leb_le in H1, H2. unfold fieldc. repeat split; lia.
+  - unfold fieldc. repeat split; (reflexivity || discriminate).
+  - unfold fieldc. repeat split; (reflexivity || discriminate).
+Qed.
+
+Lemma v6_ok_of_wf g : wf_v6 g -> v6_ok g.
+Proof.
+  intros Hwf. destruct (show_v6_chars g Hwf) as [Hc Hne]. split; [apply ipv6_roundtrip; exact Hwf|]. split.
+  - split; [exact Hne|]. eapply Forall_impl; [|exact Hc]. intros c Hcc. apply addrc_fieldc. exact Hcc.
+  - unfold nopct. destruct (show_v6 g) as [|c t]; [constructor|]. inversion Hc; subst. cbn [tl].
+    eapply Forall_impl; [|eassumption]. intros x Hx. apply addrc_fieldc. exact Hx.
+Qed.
+
+(* hosts data whose text is safe: unique keys, text-safe names, addresses in range *)
+Definition text_safe_wf (h : hosts) : Prop :=
+  wf_hosts h
+  /\ Forall (fun kv => safe_name (fst kv) /\ snd kv < 4294967296) (h_v4 h)
+  /\ Forall (fun kv => safe_name (fst kv) /\ wf_v6 (snd kv)) (h_v6 h).
+
+Lemma text_safe_of_wf h : text_safe_wf h -> text_safe h.
+Proof.
+  intros (H & H4 & H6). split; [exact H|]. split; [exact H4|].
+  eapply Forall_impl; [|exact H6]. intros kv [Hs Hw]. split; [exact Hs|apply v6_ok_of_wf; exact Hw].
+Qed.
+
+Theorem hosts_roundtrip_wf h : text_safe_wf h ->
+  exists h', deserialise (serialise h) = Ok h'
+             /\ (forall k, alookup dname_eqb k (h_v4 h') = alookup dname_eqb k (h_v4 h)
+                           /\ alookup dname_eqb k (h_v6 h') = alookup dname_eqb k (h_v6 h))
+             /\ nodup_keys h'.
+Proof. intros H. apply hosts_roundtrip. apply text_safe_of_wf. exact H. Qed.
+
+Example ex_hosts_text_safe_wf : text_safe_wf ex_hosts.
+Proof.
+  split; [exact ex_hosts_wf|]. unfold ex_hosts. cbn [h_v4 h_v6]. split.
+  - constructor; [split; [exact ex_foo_safe|reflexivity]|]. constructor; [split; [exact ex_barfoo_safe|reflexivity]|constructor].
+  - constructor; [|constructor]. split; [exact ex_foo_safe|]. split; [reflexivity|]. repeat (constructor; [reflexivity|]). constructor.
+Qed.
+
+(* ====================================================================== *)
+(* Part 8: a file whose last line is not terminated                         *)
+(* ====================================================================== *)
+
+Lemma str_lines_render_open f last :
+  Forall (fun le => wf_line (fst le)) f -> wf_shape last ->
+  str_lines (render_open f last)
+  = map (fun le => render_line (fst le)) f ++ match render_line last with [] => [] | l => [l] end.
+Proof.
+  intros H Hl. unfold str_lines, render_open, render.
+  pose proof (str_lines_terminated (map (fun le => (render_line (fst le), snd le)) f) (render_line last)) as S.
+  rewrite !map_map in S. cbn [fst snd] in S. rewrite S.
+  - rewrite (lines_go_last _ [] (render_line_noline last Hl)). reflexivity.
+  - apply Forall_forall. intros x Hx. apply in_map_iff in Hx as (le & <- & Hle). cbn [fst].
+    rewrite Forall_forall in H. destruct (H le Hle) as [Hs Hc]. split; [apply render_line_noline; exact Hs|exact Hc].
+Qed.
+
+Theorem hosts_parse_denotes_open f last :
+  Forall (fun le => valid_line (fst le)) f -> valid_line last ->
+  exists h, deserialise (render_open f last) = Ok h /\ agrees h (denote (f ++ [(last, LF)])) /\ nodup_keys h.
+Proof.
+  intros Hv Hl. unfold deserialise. rewrite str_lines_render_open.
+  2:{ eapply Forall_impl; [|exact Hv]. intros le [Hw _]. exact Hw. }
+  2:{ apply Hl. }
+  assert (Hvf : Forall valid_line (map fst f)).
+  { apply Forall_forall. intros l Hin. apply in_map_iff in Hin as (le & <- & Hle).
+    rewrite Forall_forall in Hv. apply Hv. exact Hle. }
+  assert (A0 : agrees hosts_new hden_empty) by (intros k; split; reflexivity).
+  assert (N0 : nodup_keys hosts_new) by (split; constructor).
+  unfold denote. rewrite map_app. cbn [map fst]. rewrite fold_left_app. cbn [fold_left].
+  destruct (render_line last) as [|c t] eqn:E.
+  - rewrite app_nil_r, <- map_map.
+    destruct (deserialise_lines_valid (map fst f) hosts_new hden_empty Hvf A0 N0) as (h & Hd & Ha & Hn).
+    exists h. split; [exact Hd|]. split; [|exact Hn].
+    destruct Hl as [[Hs _] Hc]. pose proof (parse_valid_line last Hs Hc) as P. rewrite E in P.
+    assert (P0 : parse_line [] = Ok None) by reflexivity. rewrite P0 in P. injection P as P.
+    unfold denote_line. destruct (line_contrib last); try exact Ha. discriminate P.
+  - rewrite <- E, <- map_map.
+    change (map render_line (map fst f) ++ [render_line last]) with (map render_line (map fst f) ++ map render_line [last]).
+    rewrite <- map_app.
+    destruct (deserialise_lines_valid (map fst f ++ [last]) hosts_new hden_empty) as (h & Hd & Ha & Hn); try assumption.
+    { apply Forall_app. split; [exact Hvf|constructor; [exact Hl|constructor]]. }
+    exists h. split; [exact Hd|]. split; [|exact Hn]. rewrite fold_left_app in Ha. exact Ha.
+Qed.
